@@ -545,10 +545,39 @@ func predCLI(c Case) (r Result) {
 	ctx, cancel := context.WithTimeout(context.Background(), 30*time.Second)
 	defer cancel()
 	cmd := exec.CommandContext(ctx, bin, args...)
-	cmd.Stdin = bytes.NewReader(stdin)
 	var stdout, stderr bytes.Buffer
 	cmd.Stdout, cmd.Stderr = &stdout, &stderr
-	err := cmd.Run()
+	var err error
+	if c.Extra["chunked"] == true && channel == "stdin" && len(stdin) >= 2 {
+		// standard input arrives the way a producer on the other end of a pipe writes it: in
+		// pieces, with pauses (end of input is the closing of the pipe, not the first short read)
+		w, perr := cmd.StdinPipe()
+		if perr != nil {
+			r.Discard = "HARNESS:cannot-run-jpgo"
+			r.Violation = perr.Error()
+			return
+		}
+		if err = cmd.Start(); err == nil {
+			cuts := []int{len(stdin) / 2, len(stdin) - 1}
+			if len(stdin) > 8 {
+				cuts = []int{1, len(stdin) / 2, len(stdin) - 1}
+			}
+			prev := 0
+			for _, cut := range cuts {
+				if cut > prev {
+					_, _ = w.Write(stdin[prev:cut])
+					time.Sleep(40 * time.Millisecond)
+					prev = cut
+				}
+			}
+			_, _ = w.Write(stdin[prev:])
+			_ = w.Close()
+			err = cmd.Wait()
+		}
+	} else {
+		cmd.Stdin = bytes.NewReader(stdin)
+		err = cmd.Run()
+	}
 	if ctx.Err() == context.DeadlineExceeded {
 		r.Nontrivial = true
 		r.Violation = "jpgo did not exit within 30 s"
@@ -815,6 +844,9 @@ func TestC19(t *testing.T) {
 		channel := []string{"stdin", "file"}[rapid.IntRange(0, 1).Draw(t, "channel")]
 		c := withExpr(Case{Property: "C19", Kind: "cli"}, expr)
 		c.Extra = map[string]interface{}{"input": input, "channel": channel, "dashdash": rapid.Bool().Draw(t, "dashdash")}
+		if channel == "stdin" && uni(t, 12, "chunked") == 0 {
+			c.Extra["chunked"] = true
+		}
 		if !isValidUTF8(input) {
 			c.Extra["input"] = ""
 			c.Extra["input_b64"] = withExpr(Case{}, input).ExprB64
@@ -831,7 +863,7 @@ func init() { predicates["hwequiv"] = predHWEquiv }
 
 func hwDocValue() *hwDoc {
 	in := &hwInner{Name: "n", Tags: []string{"x", "y", "z"}}
-	return &hwDoc{Name: "d", Items: []*hwInner{in, nil, {Name: "m", Tags: []string{}}, {Name: "k", Tags: []string{"t"}}}, Inner: *in, Ptr: in,
+	return &hwDoc{Name: "d", Items: []*hwInner{in, {Name: "m2", Tags: []string{"p", "q"}}, nil, {Name: "m", Tags: []string{}}, {Name: "k", Tags: []string{"t"}}}, Inner: *in, Ptr: in,
 		Nums: []float64{2, 1, 3, 0}, Strs: []string{"b", "a", "c"}}
 }
 
@@ -901,6 +933,14 @@ func TestC18Slices(t *testing.T) {
 				n++
 			}
 		}
+	}
+	// a slice (or projection) of a typed slice whose right-hand side slices another typed slice,
+	// two and three levels deep, side by side and after pipes (buffers lent to one level and reused by the next)
+	for _, e := range []string{"Items[:2].Tags[:1]", "Items[0:3].Tags[0:2]", "Items[1:].Tags[:1]", "Items[:2].Tags[1:]", "Items[:3].Tags[:1] | [0]", "Items[::1].Tags[::1]", "Items[:2].Name", "Items[:2].[Tags[:1], Tags[1:]]", "[Strs[:2], Strs[1:]]", "Strs[:2] | [@, @]",
+		"Items[*].Tags[:1]", "Items[:2].Tags[*]", "Items[?Name].Tags[:1]", "Items[:2].Tags[]", "Items[:4].Tags[:2][:1]", "Items[::2].Tags[::-1]", "[Items[:1].Tags[:1], Items[2:].Tags[:1]]", "Items[:2].{t: Tags[:1], n: Name}", "Items[:3].Tags[:1][0]", "Nums[:2] | [Nums[1:], @]",
+		"Items[0:2].Tags[0:1] | [*][0]", "Items[:2].Tags[:1] == Items[:2].Tags[:1]", "length(Items[:2].Tags[:1])", "Items[:2].Tags[:1] | length(@)", "map(&Tags[:1], Items[:2])", "Items[-2:].Tags[-1:]", "Strs[1:][:1]", "Strs[:2][1:]", "Nums[1:][1:][:1]"} {
+		run(t, Case{Property: "C18", Kind: "hwequiv", Expr: e})
+		n++
 	}
 	st := statsFor("C18")
 	st.mu.Lock()
